@@ -7,6 +7,7 @@ CONSTANTS
   ArbTokLen = 0
   ArbPairLen = 0
   Carriers = {"form"}
+  Handlers = {"plain", "stream"}
   Methods = {"POST"}
 CONSTRAINT Report
 INVARIANT TrRendered
